@@ -41,8 +41,9 @@ CLAUSES = ['Closure', 'RefChannelAtTarget', 'PowerRule', 'ZeroBeforeRoadm', 'Red
 
 
 def mc_cfg(b):
-    inv = '\n'.join(f'INVARIANT {c}' for c in ['TypeOK'] + CLAUSES + ['NoTieOnGrid', 'Emit'])
-    return (f'CONSTANTS\n  Configs <- MCConfigs\n  Profiles <- MCProfiles\n  VoaGrid <- MCVoaGrid\n'
+    inv = '\n'.join(f'INVARIANT {c}' for c in ['TypeOK'] + CLAUSES + ['DesignedAgainIsTheSame', 'NoTieOnGrid', 'Emit'])
+    inv += '\nPROPERTY UseKeepsTheDesign'
+    return (f'CONSTANTS\n  Configs <- MCConfigs\n  Profiles <- MCProfiles\n  VoaGrid <- MCVoaGrid\n  Followed <- MCFollowed\n'
             f'  LossSet <- {b["losses"]}\n  MaxSpans = {b["max_spans"]}\n  MultiUser = {"TRUE" if b["multi"] else "FALSE"}\n'
             f'  Rich = {"TRUE" if b["rich"] else "FALSE"}\n  EmitStride1 = {b["stride1"]}\n  EmitStride2 = {b["stride2"]}\nINIT Init\nNEXT Next\n{inv}\n')
 
@@ -143,49 +144,18 @@ def pos_of(oms, k):
     return 'booster' if k == 0 and oms.get('ing') != 1 else 'inline'
 
 
-def replay(behaviours, chk, traces, ctxs, dev, propagate):
-    """design the concretised OMS with the real code and compare with TLC's expectation.  Returns None when the
-    design equals the expectation, else a dict describing the first amplifier that differs (reported by `report_b2`
-    together with the clause names TLC finds for the same design)."""
-    js = behaviours[0]
-    cfg, oms, exp = js['cfg'], js['oms'], js['out']
+REUSE_DB = 3.0       # the what-if load of the "used again" scenario is this much above the design load
+
+
+def compare(t, exp, oms, cfg, name, att, amps_ctx, dev):
+    """the designed settings of trace `t` against TLC's expectation `exp`: None when equal, else a dict describing the
+    first amplifier that differs (reported by `report_b2` together with the clause names TLC finds for the same design)"""
     auto = oms['rich'] == 1                 # library models with out_voa_auto: the design may add v to gain, dp and voa
-    eq = equipment_for(cfg, oms)
-    spans, att = spans_for(oms)
-    ra = {'params': {'target_pch_out_db': db(oms['dpref'] + oms['t0'])}}
-    amps = amps_for(oms)
-    if oms['rich'] == 7:
-        # the operator declares the design band of this degree, on its own 37.5 GHz grid (the degree is named after its
-        # first element, so the booster is an explicit element here)
-        amps.setdefault(0, {})
-        ra['params']['per_degree_design_bands'] = {'amp 0': DESIGN_BAND_13}
-    topo = U.line_topology(spans, roadm_a=ra,
-                           amps=amps, ingress='trx' if oms['ing'] == 1 else 'roadm')
-    key = json.dumps([cfg, oms], sort_keys=True)
-    name = 'B2#' + format(zlib.crc32(key.encode()), '08x')
-    try:
-        net, ref, rec = U.design_json(topo, eq, args_power=db(oms['dpref']) if via_args_power(oms) else None)
-    except Exception as e:                                               # noqa  an exception on a valid OMS
-        return dict(name=name, cfg=cfg, oms=oms, att=att, k=0, fields=[f'EXC-{type(e).__name__}'], exception=str(e))
-    tr, cx = U.oms_traces(net, eq, ref, rec, name, cfg['mode'] == 1,
-                          only=('trx A' if oms['ing'] == 1 else 'roadm A', 'roadm B'), propagate=propagate)
-    if len(tr) != 1 or len(tr[0]['ev']) != len(exp):
-        raise Machinery(f'synthetic line designed {len(tr[0]["ev"]) if tr else "no"} amplifiers, expected {len(exp)}')
-    t = tr[0]
-    t['b2'] = 1
-    t['name'] = name
-    traces.append(t)
-    # the model's design for the amplifier models actually in place (their p_max is read from the designed amplifiers)
-    match = [b for b in behaviours if all(abs(o['pmax'] - e['pmax']) <= TOL for o, e in zip(b['out'], t['ev']))]
-    if not match:
-        raise Machinery(f'{name}: no model design for the p_max in place {[e["pmax"] for e in t["ev"]]}')
-    exp = match[0]['out']
-    ctxs[name] = dict(cx[0], cfg=cfg, oms=oms, expected=exp, att=att)
     for k, (e, x) in enumerate(zip(t['ev'], exp)):
         a = oms['amps'][k]
         if abs(e['L'] - a['L']) > TOL or (a['nxt'] == 1 and abs(e['Ln'] - a['Ln']) > TOL):
             # the line as built does not have the span loss the profile asked for (padding is part of the property)
-            return dict(name=name, cfg=cfg, oms=oms, att=att, k=k, fields=['span-loss'], amps=cx[0]['amps'],
+            return dict(name=name, cfg=cfg, oms=oms, att=att, k=k, fields=['span-loss'], amps=amps_ctx,
                         profile=dict(L=a['L'], Ln=a['Ln']), line=dict(L=e['L'], Ln=e['Ln']))
         bad = []
         if auto and a['uVoa'] == NONE:
@@ -203,8 +173,84 @@ def replay(behaviours, chk, traces, ctxs, dev, propagate):
                 dev[0] = max(dev[0], d)
         if bad:
             return dict(name=name, cfg=cfg, oms=oms, att=att, k=k, fields=bad, expected=x,
-                        designed={g: e[g] for g in ('gain', 'dp', 'voa')}, amps=cx[0]['amps'])
+                        designed={g: e[g] for g in ('gain', 'dp', 'voa')}, amps=amps_ctx)
     return None
+
+
+def replay(behaviours, chk, traces, ctxs, dev, propagate, reuse=False, again=True, life=None):
+    """design the concretised OMS with the real code and compare with TLC's expectation.  Returns None when the
+    design equals the expectation, else a dict describing the first amplifier that differs (reported by `report_b2`
+    together with the clause names TLC finds for the same design).
+
+    The designed line is a state that lives on, so the SAME network objects are then taken through what the tools do
+    with a designed network, and the model's design must still be what is observed (stage = suffix of the trace name):
+      ~used        (reuse) a what-if load REUSE_DB above the design load, then the design load again, are propagated
+                   through the line; the settings the network exports after that and the powers of this later
+                   propagation of the design load are judged;
+      ~redesigned  (again) the line is designed a second time for the same reference channel (as every step of a power
+                   sweep and the planner's redesign do); the operator settings are those of the configuration as loaded.
+    The first stage that differs is returned (a later stage inherits an earlier one's deviation)."""
+    js = behaviours[0]
+    cfg, oms, exp = js['cfg'], js['oms'], js['out']
+    eq = equipment_for(cfg, oms)
+    spans, att = spans_for(oms)
+    ra = {'params': {'target_pch_out_db': db(oms['dpref'] + oms['t0'])}}
+    amps = amps_for(oms)
+    if oms['rich'] == 7:
+        # the operator declares the design band of this degree, on its own 37.5 GHz grid (the degree is named after its
+        # first element, so the booster is an explicit element here)
+        amps.setdefault(0, {})
+        ra['params']['per_degree_design_bands'] = {'amp 0': DESIGN_BAND_13}
+    topo = U.line_topology(spans, roadm_a=ra,
+                           amps=amps, ingress='trx' if oms['ing'] == 1 else 'roadm')
+    key = json.dumps([cfg, oms], sort_keys=True)
+    name = 'B2#' + format(zlib.crc32(key.encode()), '08x')
+    only = ('trx A' if oms['ing'] == 1 else 'roadm A', 'roadm B')
+    try:
+        net, ref, rec = U.design_json(topo, eq, args_power=db(oms['dpref']) if via_args_power(oms) else None)
+    except Exception as e:                                               # noqa  an exception on a valid OMS
+        return dict(name=name, cfg=cfg, oms=oms, att=att, k=0, fields=[f'EXC-{type(e).__name__}'], exception=str(e))
+    tr, cx = U.oms_traces(net, eq, ref, rec, name, cfg['mode'] == 1, only=only, propagate=propagate,
+                          reuse_db=REUSE_DB if reuse and propagate else None)
+    if len(tr) < 1 or len(tr[0]['ev']) != len(exp):
+        raise Machinery(f'synthetic line designed {len(tr[0]["ev"]) if tr else "no"} amplifiers, expected {len(exp)}')
+    t = tr[0]
+    # the model's design for the amplifier models actually in place (their p_max is read from the designed amplifiers)
+    match = [b for b in behaviours if all(abs(o['pmax'] - e['pmax']) <= TOL for o, e in zip(b['out'], t['ev']))]
+    if not match:
+        raise Machinery(f'{name}: no model design for the p_max in place {[e["pmax"] for e in t["ev"]]}')
+    exp = match[0]['out']
+    stages = [('', t, cx[0])] + [(U.USED, u, c) for u, c in zip(tr[1:], cx[1:])]
+    if again:
+        stage = (U.USED if propagate else '') + '~redesigned'          # designed again after having been propagated, or not
+        try:
+            rec2 = U.redesign(net, eq, ref, rec)
+        except Exception as e:                                           # noqa  an exception on a valid OMS
+            return dict(name=name + stage, cfg=cfg, oms=oms, att=att, k=0, fields=[f'EXC-{type(e).__name__}'],
+                        exception=str(e), stage=stage)
+        tr2, cx2 = U.oms_traces(net, eq, ref, rec2, name, cfg['mode'] == 1, only=only, propagate=propagate and reuse)
+        if len(tr2) != 1 or len(tr2[0]['ev']) != len(exp):
+            raise Machinery(f'{name}: the second design of the line shows {len(tr2[0]["ev"]) if tr2 else "no"} amplifiers')
+        stages.append((stage, tr2[0], cx2[0]))
+    first = None
+    for stage, t, c in stages:
+        t['b2'] = 1
+        t['name'] = name + stage
+        traces.append(t)
+        ctxs[t['name']] = dict(c, cfg=cfg, oms=oms, expected=exp, att=att, stage=stage)
+        m = compare(t, exp, oms, cfg, t['name'], att, c['amps'], dev)
+        if m is not None and first is None:
+            first = dict(m, stage=stage)
+    if life is not None:
+        v1 = [e['voa'] > 0 and e['uVoa'] == NONE for e in stages[0][1]['ev']]
+        pm = [abs(stages[0][1]['prefTot'] + e['dp'] - e['pmax']) <= TOL for e in stages[0][1]['ev']]
+        life['designed_again'] += again
+        life['designed_again_with_automatic_voa_in_place'] += again and any(v1)
+        life['used_again'] += len(tr) > 1
+        life['used_again_with_an_amplifier_at_its_maximum'] += len(tr) > 1 and any(pm)
+        life['designed_again_after_use'] += again and propagate
+        life['designed_again_in_gain_mode'] += again and cfg['mode'] == 0
+    return first
 
 
 def report_b2(mism, verdicts, chk):
@@ -216,6 +262,13 @@ def report_b2(mism, verdicts, chk):
         v = verdicts.get(m['name'], [])
         clauses = sorted({c for step, c in v if step == k + 1}) or sorted({c for _, c in v})
         mode = 'power' if cfg['mode'] == 1 else 'gain'
+        if m.get('stage'):
+            # the first design equals the model; the line differs from it after it has been used / designed again: the
+            # class of failing input is the mode and the stage of the line's life
+            chk.violation(f'B2|{mode}|{m["stage"].strip("~").replace("~", "-then-")}' +
+                          (f'|{m["fields"][0]}' if m['fields'][0].startswith('EXC-') else ''),
+                          dict(m, position=pos_of(oms, k), clauses_named_by_TLC=clauses))
+            continue
         if m['att'] and oms['amps'][k]['kind'] != 9:
             sig = f'B2|{mode}|operator-att_in-on-padded-span'
         else:       # kind 9 (saturating operator gain behind an input VOA) keeps its own signature on att profiles too
@@ -326,6 +379,14 @@ def multiband_line():
     return U.line_topology(spans, roadm_a={'params': {'design_bands': bands}}, amps=amps, amp_type='Multiband_amplifier')
 
 
+# networks of the corpus whose designed elements are used again after the first propagation of the design load (amplifiers
+# designed at their maximum output: multiband, td_twohops, td_bugfixiterator, td_testTopology in gain mode) / that are
+# designed a second time (with and without automatic output VOAs, placeholders and operator-set amplifiers)
+USED_AGAIN = {'meshV2', 'edfa_example', 'multiband', 'td_testTopology', 'td_twohops', 'td_bugfixiterator'}
+DESIGNED_AGAIN = {'meshV2-autovoa', 'td_testTopology-autovoa', 'CORONET_CONUS-autovoa', 'edfa_example', 'td_twohops',
+                  'fused_roadm', 'td_perdegree_auto'}
+
+
 def collect_b3(chk):
     from harness.gnpy_util import TD
     traces, ctxs, stats = [], {}, {}
@@ -372,7 +433,21 @@ def collect_b3(chk):
             if not U.step_in_domain(eq['Span']['default'].delta_power_range_db[2]):
                 skipped.append(name)
                 continue
-            tr, cx = U.oms_traces(net, eq, ref, rec, name, mode, stats=stats)
+            # the designed network lives on: on some networks every OMS is crossed again by a heavier what-if load and
+            # then by the design load, and observed a second time (trace name~used: the settings the network exports
+            # after that use, the powers of the later propagation of the design load) ...
+            tr, cx = U.oms_traces(net, eq, ref, rec, name, mode, stats=stats, reuse_db=REUSE_DB if name in USED_AGAIN else None)
+            if name in DESIGNED_AGAIN and mode:
+                # ... and some are designed a second time for the same reference channel (name~redesigned), the operator
+                # settings being the ones of the files as loaded (power mode; gain mode: B2)
+                try:
+                    rec2 = U.redesign(net, eq, ref, rec)
+                except Exception as e:                                       # noqa
+                    chk.violation(f'B3|{name}~redesigned|design-exception|{type(e).__name__}',
+                                  dict(network=name, power_mode=mode, exception=f'{type(e).__name__}: {e}'))
+                else:
+                    tr2, cx2 = U.oms_traces(net, eq, ref, rec2, name + '~redesigned', mode, stats=stats)
+                    tr, cx = tr + tr2, cx + cx2
             traces += tr
             ctxs.update({c['name']: c for c in cx})
             n_amp += sum(len(t['ev']) for t in tr)
@@ -397,6 +472,10 @@ def finish_b3(chk, traces, ctxs, n_amp, stats, pre=None):
     chk.cov['b3_amplifiers'] = n_amp
     chk.cov['b3_amplifiers_propagated'] = sum(1 for t in traces for e in t['ev'] if e['tot'] != NONE)
     chk.cov['b3_roadm_outputs_judged'] = sum(t['rd']['judged'] for t in traces)
+    chk.cov['b3_oms_observed_again_after_use'] = sum(1 for t in traces if U.USED in t['name'])
+    chk.cov['b3_oms_designed_a_second_time'] = sum(1 for t in traces if '~redesigned' in t['name'])
+    chk.cov['b3_amplifiers_with_automatic_voa_designed_again'] = sum(
+        1 for t in traces if '~redesigned' in t['name'] for e in t['ev'] if e['uVoa'] == NONE and e['voa'] > 0)
     chk.cov['b3_amplifiers_with_automatic_voa'] = sum(1 for t in traces for e in t['ev'] if e['uVoa'] == NONE and e['voa'] > 0)
     chk.cov['b3_stats'] = {k: (v[:5] if isinstance(v, list) else v) for k, v in stats.items()}
     chk.cov['b3_user_settings'] = {f: sum(1 for t in traces for e in t['ev'] if e[f] != NONE) for f in ('uGain', 'uDp', 'uVoa')}
@@ -420,6 +499,8 @@ def run(chk):
                      bound_off_step=0, auto_voa_followed_by_amplifier=0, starts_at_transceiver=0,
                      tx_power_differs_from_reference=0, two_auto_models_above_both_pmax=0, lumped_loss_in_span=0,
                      design_band_on_its_own_grid=0, reference_power_via_args_power=0, two_chained_fused=0)
+    life = dict(designed_again=0, designed_again_with_automatic_voa_in_place=0, used_again=0,
+                used_again_with_an_amplifier_at_its_maximum=0, designed_again_after_use=0, designed_again_in_gain_mode=0)
     for b in BOUNDS[chk.tier]:
         r = tlc.run('MC_DesignPower', cfg_text=mc_cfg(b), timeout=2400, tag='c09-mc')
         chk.add_mc(f'MC_DesignPower MaxSpans={b["max_spans"]} {b["losses"]} MultiUser={b["multi"]} Rich={b["rich"]}', r)
@@ -435,7 +516,14 @@ def run(chk):
             if len(inv) != len({json.dumps([o['pmax'] for o in w['out']]) for w in v}):
                 raise Machinery('admissible designs differ by more than the automatic VOA / the model in place')
             n_cases += 1
-            m = replay(v, chk, b2_traces, b2_ctx, dev, propagate=(n_cases % b.get('propagate_every', 1) == 0))
+            pe = b.get('propagate_every', 1)
+            # gain mode: a line with an input VOA is not designed again - the second design applies the test of the known
+            # finding (saturation test of an amplifier whose model and gain are in place ignores in_voa) to what the
+            # first design had selected itself
+            reuse = n_cases % (3 * pe) == 0
+            again = (n_cases % 3 == 1 or reuse or js['oms']['rich'] == 1) and not (
+                js['cfg']['mode'] == 0 and any(a['inVoa'] != 0 for a in js['oms']['amps']))
+            m = replay(v, chk, b2_traces, b2_ctx, dev, propagate=(n_cases % pe == 0), reuse=reuse, again=again, life=life)
             if m is None:
                 n_ok += 1
             else:
@@ -452,8 +540,9 @@ def run(chk):
                 any(w['out'][k]['pmax'] != o['pmax'] for w in v)
                 for k, (a, o) in enumerate(zip(o6['amps'], js['out'])))
             exercised['bound_off_step'] += cfg['step'] > 0 and (cfg['lo'] % cfg['step'] != 0 or cfg['hi'] % cfg['step'] != 0)
-            if js['oms']['rich'] == 1 and b2_traces and b2_traces[-1]['name'].endswith(format(zlib.crc32(k.encode()), '08x')):
-                ev = b2_traces[-1]['ev']
+            first = next((t for t in reversed(b2_traces) if t['name'] == 'B2#' + format(zlib.crc32(k.encode()), '08x')), None)
+            if js['oms']['rich'] == 1 and first is not None:
+                ev = first['ev']
                 exercised['auto_voa_followed_by_amplifier'] += any(e['voa'] > 0 and e['uVoa'] == NONE for e in ev[:-1])
             for a, o in zip(js['oms']['amps'], js['out']):
                 gk = cfg['mode'] == 0 and a['uGain'] != NONE
@@ -470,12 +559,13 @@ def run(chk):
                 chk.sample(dict(kind='B2 TLC-designed OMS replayed into designed_network', cfg=cfg,
                                 amps=[{f: a[f] for f in ('L', 'Ln', 'nxt', 'uGain', 'uDp', 'uVoa', 'uVar', 'kind')}
                                       for a in js['oms']['amps']], expected=js['out']))
-    if any(v == 0 for v in exercised.values()):
-        raise Machinery(f'vacuous replay set: {exercised}')
+    if any(v == 0 for v in exercised.values()) or any(v == 0 for v in life.values()):
+        raise Machinery(f'vacuous replay set: {exercised} {life}')
     chk.exhaustive = True
     chk.cov['b2_designs_replayed'] = n_cases
     chk.cov['b2_designs_equal_to_model'] = n_ok
     chk.cov['b2_clauses_exercised'] = exercised
+    chk.cov['b2_life_of_the_designed_line'] = life
     chk.cov['tolerance_b2_udb'] = TOL
     chk.cov['worst_deviation_b2_udb'] = dev[0]
     # ONE TLC pass judges the replayed designs (B2), the recorded designs of the corpus (B3) and the corrupted copies
@@ -487,13 +577,14 @@ def run(chk):
     chk.traces += ok
     report_b2(mism, verdicts, chk)
     # a design that equals the model but that the trace specification rejects: model and monitor disagree
-    named = {m['name'] for m in mism}
+    named = {m['name'].split('~')[0] for m in mism}       # a later stage of a reported case inherits its deviation
     for nm, v in verdicts.items():
-        if nm not in named:
+        if nm.split('~')[0] not in named:
             c = b2_ctx[nm]
             step, clause = v[0]
             if clause.startswith('DesignLoadReproduces'):
-                chk.violation(f'B2|{"power" if c["cfg"]["mode"] == 1 else "gain"}|{clause}|'
+                st = c['stage'].strip('~').replace('~', '-then-')
+                chk.violation(f'B2|{"power" if c["cfg"]["mode"] == 1 else "gain"}|{st + "|" if st else ""}{clause}|'
                               f'kind={c["oms"]["amps"][max(step, 1) - 1]["kind"]}',
                               dict(trace=nm, viol=v, cfg=c['cfg'], oms=c['oms'], amps=c['amps']))
             else:
